@@ -20,7 +20,10 @@ def get_circle_point_list(center, normal, radius, n=10):
         )
     import math, copy
 
-    if normal.angle(x_unit_vector()) < SMALL_ANGLE:
+    # the base vector must not be (anti)parallel to the normal, so the
+    # y axis is used for normals close to the +x or the -x direction
+    angle_x = normal.angle(x_unit_vector())
+    if angle_x < SMALL_ANGLE or angle_x > math.pi - SMALL_ANGLE:
         base_vector = y_unit_vector()
         if normal.angle(y_unit_vector()) < SMALL_ANGLE:
             raise ValueError("Bug detected! please contact the author")
